@@ -161,14 +161,38 @@ def body_unrodded(env):
                s._pressure_drop['friction'] + s._pressure_drop['gravity'])
 
 
+class _Asm(StubSelf):
+    @property
+    def active_region(self):
+        return self.region[self._active_region_idx]
+
+    @property
+    def active_region_idx(self):
+        return self._active_region_idx
+
+
 def body_assembly(env):
-    """Assembly.pressure_drop = completed regions + active region."""
+    """Assembly total = sum over all regions passed (real update_region at every region change) +
+    the active region (real pressure_drop property)."""
+    nreg = env.params['nreg']
     with env.patch(MODS):
-        done = env.nonneg('dp_completed_regions')
-        act = env.nonneg('dp_active_region')
-        reg = StubSelf(pressure_drop=act)
-        a = StubSelf(_pressure_drop=done, active_region=reg)
-        env.eq('assembly total = sum of regions', am.Assembly.pressure_drop.fget(a), done + act)
+        dps = [env.nonneg('dp_region%d' % i, hi=1e9) for i in range(nreg)]
+        regs = [StubSelf(pressure_drop=dps[i], activate=lambda *a, **k: None) for i in range(nreg)]
+        bnds = [0.0] + [float(i + 1) for i in range(nreg)]
+        a = _Asm(_bind=(am.Assembly, ['update_region', '_identify_active_region', 'check_region_update']),
+                 _pressure_drop=0.0, region=regs, _active_region_idx=0, region_bnd=bnds,
+                 duct_outer_surf_temp=np.zeros(6))
+        seen = dps[0]
+        for i in range(1, nreg):
+            z = bnds[i] + 0.25          # first plane inside region i
+            env.holds('region change detected at region %d' % i, a.check_region_update(z))
+            a.update_region(z, None, None, adiabatic=True)
+            env.holds('region %d active' % i, a._active_region_idx == i)
+            seen = seen + dps[i]
+            env.eq('after entering region %d: assembly total = sum of all regions so far' % i,
+                   am.Assembly.pressure_drop.fget(a), seen, tol=1e-12, key='assembly_total_not_sum_of_regions')
+        if nreg == 1:
+            env.eq('single region: assembly total = region value', am.Assembly.pressure_drop.fget(a), dps[0])
 
 
 def instances(tier):
@@ -194,7 +218,8 @@ def instances(tier):
             for equiv in (False, True):
                 inst.append(dict(label='unrodded[k=%d,gravity=%s,rr_equiv=%s]' % (k, gravity, equiv),
                                  body=body_unrodded, params={'k': k, 'gravity': gravity, 'equiv': equiv}))
-    inst.append(dict(label='assembly-sum', body=body_assembly, params={}))
+    for nreg in (1, 2, 3, 4):
+        inst.append(dict(label='assembly-sum[regions=%d]' % nreg, body=body_assembly, params={'nreg': nreg}))
     return inst
 
 
